@@ -221,6 +221,15 @@ def MAC.run (m : MAC) : List Call → List Out
     | (_, .panic) => [.panic]
     | (m', o) => o :: MAC.run m' cs
 
+/-- run a history where the caller recovers from panics and keeps using the object: the panic of a Write after
+    Sum/Verify is raised before anything is modified, so the state is unchanged and later calls go on -/
+def MAC.runAll (m : MAC) : List Call → List Out
+  | [] => []
+  | c :: cs => (m.step c).2 :: MAC.runAll (m.step c).1 cs
+
+/-- `TagSize`, `(*MAC).Size()` -/
+def tagSize : Nat := 16
+
 def new (key : Bytes) : MAC := ⟨initMac key, false⟩
 
 /-- one-shot `Sum(out, msg, key)` -/
